@@ -617,11 +617,13 @@ def check_shape_c06(s):
                 bad = [i for i in ids if not close(c.val('P_mu', i), TB[i])]
                 R.check('C06:bounded:tv:nested_mu:nest-parameters-and-scale-one-equals-logit', not bad, **where(s, pt, alternative=bad[:1]))
             # cross-nested logit whose alternatives belong wholly to one nest == nested logit
-            for x, y, ob in (('P@cnl01b', 'P', 'cnl-with-0-1-allocations-given-as-parameters-equals-nested'),
+            # (the cross-nested code weights by the availability VALUE, the nested code tests it: the two only meet on 0/1 values)
+            binary_av = all(env.get(f'AV{i}', 1.0) in (0.0, 1.0) for i in ids)
+            for x, y, ob in ((('P@cnl01b', 'P', 'cnl-with-0-1-allocations-given-as-parameters-equals-nested'),
                              ('P@cnl01', 'P', 'cnl-with-0-1-allocations-equals-nested'), ('logP@cnl01', 'logP', 'cnl-with-0-1-allocations-equals-nested'),
                              ('P_mu@cnl01', 'P_mu', 'cnlmu-with-0-1-allocations-equals-nested_mev_mu'),
                              ('P@cnl01z', 'P', 'cnl-with-explicit-zero-allocations-equals-nested'),
-                             ('P_mu@cnl01z', 'P_mu', 'cnlmu-with-explicit-zero-allocations-equals-nested_mev_mu')):
+                             ('P_mu@cnl01z', 'P_mu', 'cnlmu-with-explicit-zero-allocations-equals-nested_mev_mu')) if binary_av else ()):
                 if x in T:
                     bad = [i for i in ids if a[i] and not close(c.val(x, i), c.val(y, i))]
                     R.check(f'C06:bounded:tv:{ob}', not bad, **where(s, pt, alternative=bad[:1], cnl=[c.val(x, i) for i in bad[:1]], nested=[c.val(y, i) for i in bad[:1]]))
